@@ -770,15 +770,19 @@ def require_classes(ctx, required=REQUIRED_CLASSES, minimum=2):
 
 def unit_for(ctx, model_ok, only_kinds, n, budget, required, kinds_per_case=None, rounds=3):
     """the unit correspondence restricted to the creator variants a property's theorems speak about: runs unit() (again with
-       fresh cases, at most `rounds` times) until every class of `required` was hit by a real-BLOCK_SIZE case, then demands it"""
+       fresh cases, at most `rounds` times) until every class of `required` was hit by a real-BLOCK_SIZE case of THIS
+       correspondence (classes counted before the call, e.g. by an end-to-end generator, do not count), then demands it"""
+    base, nd, nb = dict(ctx.classes), len(ctx.disagreements), len(ctx.broken)
+
+    def hits(c):
+        return ctx.classes.get(c, 0) - base.get(c, 0)
     for _ in range(rounds):
         unit(ctx, model_ok, n=n, budget=budget, kinds_per_case=kinds_per_case, only_kinds=only_kinds)
-        if all(ctx.classes.get(c, 0) >= 1 for c in required) or ctx.disagreements or ctx.broken:
+        if all(hits(c) >= 1 for c in required) or len(ctx.disagreements) > nd or len(ctx.broken) > nb:
             break
-    require_classes(ctx, required, minimum=1)
-    for k in (only_kinds or KINDS):
-        if not ctx.classes.get(f"creator {k}"):
-            ctx.broken.append(f"creator variant {k} was never run by the unit correspondence: the run is not accepted")
+    for c in list(required) + [f"creator {k}" for k in (only_kinds or KINDS)]:
+        if hits(c) < 1:
+            ctx.broken.append(f"creators unit correspondence: class '{c}' was never hit: the run is not accepted")
 
 
 def replay_disagreements(ctx, data, tag):
